@@ -25,7 +25,7 @@ WellFormed(H) == /\ Len(H) >= 1
 
 (* ---- per-action verdicts: <<verdict, new state>> ---- *)
 VHist(s, e) ==
-  IF ~WellFormed(e.hist) THEN <<"inner-not-outer-or-none", s>>
+  IF ~("overlap" \in DOMAIN e /\ e.overlap) /\ ~WellFormed(e.hist) THEN <<"inner-not-outer-or-none", s>>
   ELSE IF "intended" \in DOMAIN e /\ e.intended # e.hist THEN <<"states-differ-from-intended", [s EXCEPT !.hist = e.hist]>>
   ELSE <<"ok", [s EXCEPT !.hist = e.hist]>>
 
